@@ -1238,6 +1238,16 @@ impl Blockchain {
                     return (true, wallet_update_status | wallet_updated);
                 }
                 WindingResult::FinishWithFailure => {
+                    // blocks of the rejected chain that were wound and unwound again may
+                    // have advanced the last-block bookkeeping: point it at the tip again
+                    if let Some(tip) = self.get_latest_block() {
+                        let (id, hash, timestamp, burnfee) =
+                            (tip.id, tip.hash, tip.timestamp, tip.burnfee);
+                        self.last_block_id = id;
+                        self.last_block_hash = hash;
+                        self.last_timestamp = timestamp;
+                        self.last_burnfee = burnfee;
+                    }
                     return (false, wallet_update_status);
                 }
             }
